@@ -244,7 +244,7 @@ func ruleErrPropagate(c *Ctx, r *R) {
 				// first error wins: a failed CAS on the close-once flag means another worker already reported its error
 				if v, val := g.boolVal(); !val {
 					if cc, ok := v.(*ssa.Call); ok {
-						if f := cc.Call.StaticCallee(); f != nil && f.Name() == "CompareAndSwapUint32" {
+						if nm, _, ne0, ok := atomicOp(cc); ok && !ne0 && nm == "CompareAndSwapUint32" {
 							return ss(2), true
 						}
 					}
